@@ -24,7 +24,6 @@ type variantResult struct {
 	Note    string   `json:"note,omitempty"`
 }
 
-
 // analysePatched applies one patch to a scratch copy of the working tree and
 // runs the quick rule set of the property on the copy in a subprocess. It
 // returns the `rule|key` of every obligation reported as violated/undecided.
